@@ -1,5 +1,65 @@
-(* C07 -- placeholder while the parser model is being validated; theorems follow *)
-From Httoop Require Import Model.Parser.
-Theorem C07_placeholder : init = init.
-Proof. exact eq_refl. Qed.
-Print Assumptions C07_placeholder.
+(* C07 -- delivered framing headers match the body; trailers cannot smuggle fields.
+   Final statements only.  All theorems hold for EVERY instantiation of the callees (start-line
+   parser, header-semantics hooks, content decoder, RFC 2047 decoder, Trailer element parser). *)
+From Coq Require Import ZArith.
+From Httoop Require Import Model.Parser Proofs.ParserFraming Corr.Parser.
+
+(* T1 obligation: the working tree overwrites Content-Length when chunked framing decided the body (fix D4) *)
+Theorem C07_cl_overwrite_when_chunked : CL_VARIANT = Repaired.
+Proof. exact cl_variant_repaired. Qed.
+Print Assumptions C07_cl_overwrite_when_chunked.
+
+(* Main theorem: for every callee record, both state machines, every stream and every way of cutting
+   it into parse() calls, every delivered message that carries no Content-Encoding has a Content-Length
+   equal to the number of delivered body octets (literally the decimal length when the parser wrote it,
+   numerically under the library's own integer reading when the peer's value was kept) and no
+   Transfer-Encoding -- except the HTTP/1.0 case of known finding D5, which the statement names. *)
+Theorem C07_delivered_framing : forall (C : callees) (k : kind) (frags : list bytes),
+  match feed C k init frags with (_, ms, _) => Forall (framing_ok C) ms end.
+Proof. intros C k frags. apply feed_framing. exact (J_init C). Qed.
+Print Assumptions C07_delivered_framing.
+
+(* the same for a single completed message, from the completion invariant *)
+Theorem C07_completion : forall C k v i b m, complete_ok C i -> on_body_complete C k v i b = inl m -> framing_ok C m.
+Proof. exact on_body_complete_framing. Qed.
+Print Assumptions C07_completion.
+
+(* Trailers: after a completed trailer section every field name of the message was already a header
+   field or is a name announced by the Trailer field; fields under other names keep exactly their value
+   (so Content-Length, Transfer-Encoding and Trailer cannot be set unless the Trailer callee announces
+   them, which Trailer.sanitize forbids -- tied by T2); membership never shrinks. *)
+Theorem C07_trailer_subset : forall C i b i' b', parse_trailers C i b = Done i' b' ->
+  i' = i \/
+  (exists ns v, hget K_TRAILER (i_hdrs i) = Some v /\ (c_trailer C v = TrOk ns \/ ns = []) /\
+     (forall key, hmem key (i_hdrs i') = true -> hmem key (i_hdrs i) = true \/ In key (map canon ns)) /\
+     (forall key, hmem key (i_hdrs i) = true -> hmem key (i_hdrs i') = true) /\
+     (forall key, ~ In key (map canon ns) -> hget key (i_hdrs i') = hget key (i_hdrs i)) /\
+     i' = set_hdrs i (i_hdrs i')) \/
+  (hget K_TRAILER (i_hdrs i) = None /\ i' = set_hdrs i (i_hdrs i') /\ i_hdrs i' = i_hdrs i).
+Proof. exact parse_trailers_done_spec. Qed.
+Print Assumptions C07_trailer_subset.
+
+(* an unannounced trailer field makes the message fail with 400 *)
+Theorem C07_untold_trailer_400 : forall C i b block rest tr ns h' x tr',
+  prefixb (le_bytes (i_le i)) b = false ->
+  cut (le_bytes (i_le i) ++ le_bytes (i_le i)) b = Some (block, rest) -> hparse [] block = Some tr ->
+  (match hget K_TRAILER (i_hdrs i) with None => TrOk [] | Some v => if nonempty_b v then c_trailer C v else TrOk [] end) = TrOk ns ->
+  merge_trailers C ns (i_hdrs i) tr = inl (h', x :: tr') ->
+  parse_trailers C i b = Fail (EHttp 400).
+Proof. exact parse_trailers_untold_is_400. Qed.
+Print Assumptions C07_untold_trailer_400.
+
+(* non-vacuity: a response sent with a stale Content-Length and chunked framing, cut in the middle,
+   is delivered with Content-Length 3, the three body octets and no Transfer-Encoding *)
+Definition ex_tables : tables := {|
+  t_start := [(X "485454502f312e3120323030204f4b", SlOk {| p11 := true; nobody := false |})];
+  t_hdrs := [((true, [(X "436f6e74656e742d4c656e677468", X "31"); (X "5472616e736665722d456e636f64696e67", X "6368756e6b6564")]), HOk)];
+  t_decode := []; t_2047 := []; t_trailer := [] |}.
+Example C07_example :
+  feed (callees_of ex_tables) Client init
+    [X "485454502f312e3120323030204f4b0d0a436f6e74656e742d4c656e6774683a20310d0a5472616e736665722d456e636f64696e673a206368756e6b65640d0a0d0a330d0a61";
+     X "62630d0a300d0a0d0a"]
+  = ({| buf := []; cur := None |},
+     [{| m_line := X "485454502f312e3120323030204f4b";
+         m_hdrs := [(X "436f6e74656e742d4c656e677468", X "33")]; m_body := X "616263" |}], None).
+Proof. vm_compute. reflexivity. Qed.
